@@ -19,6 +19,16 @@ A *program* is a list of statements in SSA form (statement k defines variable k)
     {"op": "map", "a": v, "fn": "keep", "static": spec}    (C14: static arguments of other types, see make_static)
     {"op": "alias", "a": v, "how": "select"|"iselect"}     (C14: a.select({}) — documented to hand back the action itself)
     map / reduce with "share": n                             (C14: ONE Payload object per n and build, passed to several operations)
+C13 extensions (generated only with Gen(ext=True); C14 keeps the statement kinds above):
+    {"op": "mapn", "a": v, "shape": [..], "ks": [k per position, row-major], "as": "ndarray"|"list"}  map(array of payloads affine(k))
+    {"op": "selectn", "a": v, "how": "select"|"iselect", "crit": [[d, "val"|"vals", x], ...], "drop": bool,
+                      "via": "dict"|"kwargs"|"mixed", "alias": bool}      several criteria; **kwargs; sel / isel
+    expand with "internal": int | str, or "icoord": [name, [values]] instead; "kw": [[k, v]...] (backend_kwargs); "size": null
+    broadcast with "exclude": [names]
+    stack / concatenate / flatten with "kw": [[k, v]...] (backend_kwargs), negative "axis"
+    any statement with "reg": name     the operation is called through the registered-action wrapper a.<name>.<method>(...)
+    program flag "xr": true            source values are xarray DataArrays (internal dims i0, i1, ... with coordinates): the
+                                       xarray backend is dispatched
 
 Nothing here depends on the Lean model.
 """
@@ -185,6 +195,25 @@ def exec_stmt(st, env):
             arr[idx] = functools.partial(srcfn, st["base"] + i)
         return fl.from_source(arr, dims=dims, coords={d: list(l) for d, l in st["dims"]})
     a = env[st["a"]]
+    if "reg" in st:
+        # the same operation through the registered-action wrapper: a.<name>.<method>(...) casts to the registered class and back
+        _ensure_registered()
+        a = getattr(a, st["reg"])
+    if op == "mapn":
+        shape = tuple(st["shape"])
+        arr = np.empty(shape, dtype=object)
+        for i, idx in enumerate(np.ndindex(*shape)):
+            arr[idx] = fl.Payload(affine, args=("input0", st["ks"][i]))
+        return a.map(arr.tolist() if st.get("as") == "list" else arr)
+    if op == "selectn":
+        crit = [(d, (x if kind == "val" else list(x))) for d, kind, x in st["crit"]]
+        meth = {"select": "sel", "iselect": "isel"}[st["how"]] if st.get("alias") else st["how"]
+        via = st.get("via", "dict")
+        if via == "kwargs":
+            return getattr(a, meth)(drop=st["drop"], **dict(crit))
+        if via == "mixed":
+            return getattr(a, meth)(dict(crit[:1]), drop=st["drop"], **dict(crit[1:]))
+        return getattr(a, meth)(dict(crit), drop=st["drop"])
     if op == "map":
         fn = CUSTOM[st["fn"]]
         payload = fl.Payload(fn, args=("input0", st["k"])) if st["fn"] == "affine" else fn
@@ -203,20 +232,24 @@ def exec_stmt(st, env):
     if op == "named":
         kw = dict(st.get("kw") or [])
         return getattr(a, st["name"])(dim=st["dim"], batch_size=st["bs"], keep_dim=st["keep"], backend_kwargs=kw)
+    bkw = {"backend_kwargs": dict(st["kw"])} if st.get("kw") and op in ("stack", "concatenate", "flatten", "expand") else {}
     if op == "stack":
-        return a.stack(st["dim"], batch_size=st["bs"], keep_dim=st["keep"], axis=st["axis"])
+        return a.stack(st["dim"], batch_size=st["bs"], keep_dim=st["keep"], axis=st["axis"], **bkw)
     if op == "concatenate":
-        return a.concatenate(st["dim"], batch_size=st["bs"], keep_dim=st["keep"])
+        return a.concatenate(st["dim"], batch_size=st["bs"], keep_dim=st["keep"], **bkw)
     if op == "flatten":
-        return a.flatten(dim=st["dim"], axis=st["axis"])
+        return a.flatten(dim=st["dim"], axis=st["axis"], **bkw)
     if op == "alias":
         return getattr(a, st["how"])({})
     if op in ("select", "iselect"):
         v = st["val"] if "val" in st else list(st["vals"])
         return getattr(a, op)({st["dim"]: v}, drop=st["drop"])
     if op == "expand":
-        return a.expand(_dimarg(st["dim"]), st["internal"], dim_size=st["size"], axis=st["axis"])
+        internal = (st["icoord"][0], list(st["icoord"][1])) if "icoord" in st else st["internal"]
+        return a.expand(_dimarg(st["dim"]), internal, dim_size=st.get("size"), axis=st["axis"], **bkw)
     if op == "broadcast":
+        if "exclude" in st:
+            return a.broadcast(env[st["b"]], exclude=list(st["exclude"]))
         return a.broadcast(env[st["b"]])
     if op == "join":
         return a.join(env[st["b"]], _dimarg(st["dim"]), match_coord_values=st["match"])
@@ -242,6 +275,18 @@ def exec_stmt(st, env):
             raise ValueError(kind)
         return a.transform(f, [(p,) for p in st["params"]], _dimarg(st["dim"]), axis=st["axis"])
     raise ValueError(op)
+
+
+_REGISTERED = {}
+
+
+def _ensure_registered():
+    """Action.register("c13sub", <a subclass of Action>): reached as a.c13sub.<method>; "default" is registered by fluent itself"""
+    from earthkit.workflows import fluent as fl
+    if "c13sub" not in fl.Action.REGISTRY:
+        if "cls" not in _REGISTERED:
+            _REGISTERED["cls"] = type("C13SubAction", (fl.Action,), {})
+        fl.Action.register("c13sub", _REGISTERED["cls"])
 
 
 def operands(st):
@@ -288,6 +333,37 @@ def _canon_label(x):
         return int(x)
     s = str(x)
     if "<xarray." in s:
+        return OPAQUE
+    return s
+
+
+_KEEP_RE = None
+
+
+def _strict_label(x, dim=None):
+    """C13: labels compared WITHOUT merging types (1.0 is not 1, True is not 1); the label `reduce(keep_dim=True)` gives the kept
+    dimension `dim` — f"{coords[dim][0]}-{coords[dim][-1]}", the texts of two 0-d DataArrays named `dim` (each followed by
+    whatever scalar coordinates are attached) — is read back as keep:<first>:<last>"""
+    global _KEEP_RE
+    if isinstance(x, np.generic):
+        x = x.item()
+    if isinstance(x, bool):
+        return "b:" + str(x)
+    if isinstance(x, int):
+        return x
+    if isinstance(x, float):
+        return "f:" + repr(x)
+    s = str(x)
+    if "<xarray." in s:
+        if _KEEP_RE is None:
+            import re
+            _KEEP_RE = re.compile(r" Size: [^\n]*\narray\(('(?:[^'\\]|\\.)*'|-?\d+)(?:, dtype=[^)]*)?\)")
+        if dim is not None:
+            parts = s.split(f"<xarray.DataArray {dim!r} ()>")
+            if len(parts) == 3 and parts[0] == "":
+                m = [_KEEP_RE.match(q) for q in parts[1:]]
+                if all(m):
+                    return "keep:" + ":".join(t.group(1)[1:-1] if t.group(1).startswith("'") else t.group(1) for t in m)
         return OPAQUE
     return s
 
@@ -353,49 +429,71 @@ class Unfolder:
         return self.node(x)
 
 
-def canon_action(action, unf=None):
+def canon_action(action, unf=None, strict=False):
     unf = unf or Unfolder()
     n = action.nodes
+    lab = _strict_label if strict else _canon_label
     dims = []
     for d in n.dims:
         d = str(d)
         if d in n.coords:
-            dims.append([d, [_canon_label(x) for x in n.coords[d].data.tolist()], True])
+            dims.append([d, [(lab(x, d) if strict else lab(x)) for x in n.coords[d].data.tolist()], True])
         else:
             dims.append([d, list(range(n.sizes[d])), False])
-    scalars = sorted([str(k), _canon_label(v.data.item() if v.data.shape == () else v.data.tolist())]
-                     for k, v in n.coords.items() if k not in n.dims)
+    scalars = sorted(([str(k), (lab(v.data.item(), str(k)) if strict and v.data.shape == () else
+                                lab(v.data.item() if v.data.shape == () else v.data.tolist()))]
+                      for k, v in n.coords.items() if k not in n.dims), key=lambda kv: kv[0])
     data = n.data
     exprs = [unf.ref(data[idx]) for idx in np.ndindex(*data.shape)] if data.shape else [unf.ref(data.item())]
     return {"dims": dims, "scalars": scalars, "exprs": exprs}
 
 
-def canon_result(r, unf=None):
+def canon_result(r, unf=None, strict=False):
     if isinstance(r, tuple):
         if r[0] == "skip":
             return {"skip": True}
         return {"err": r[1]}
     try:
-        return canon_action(r, unf)
+        return canon_action(r, unf, strict)
     except Exception as e:
         return {"err": "canon:" + type(e).__name__}
 
 
 # ----------------------------------------------------------------------------- interpreter for the real graph
 
+INTERNAL_COORD0 = 100     # xr mode: internal dimension i<k> has the coordinate labels 100 + 10 k + j
+
+
+def _elem(seed, idx, exact):
+    """value of the idx-th source element of a run: every element of every source is DISTINCT (idx is part of the value), never
+    zero, of random sign, and carries 32 (exact) / 10 (float) random low bits so that sums, products, differences and quotients of
+    different selections of elements coincide only with negligible probability: a mis-wired node is seen."""
+    import random
+    r = random.Random(f"{seed}:{idx}")
+    if exact:
+        v = ((idx + 1) << 32) + r.getrandbits(32)
+    else:
+        v = (idx + 1) * 1024 + r.getrandbits(10)
+    return -v if r.random() < 0.5 else v
+
+
+def internal_names(prog):
+    return ["i%d" % k for k in range(len(prog.get("internal", [])))]
+
+
 def source_value(prog, i):
-    """the internal array of source node i (exact Fractions, or floats when the program needs sqrt)"""
+    """the internal array of source node i: exact Fractions; floats when the program needs sqrt (std); an xarray DataArray of
+    floats (dims i0, i1, ..., labelled) when the program runs on the xarray backend"""
     shape = tuple(prog.get("internal", []))
     seed = prog.get("vseed", 0)
     n = int(np.prod(shape)) if shape else 1
-    vals = []
-    for j in range(n):
-        h = (i * 7919 + j * 104729 + seed * 15485863 + 12345) % 2147483647
-        h = (h * 48271) % 2147483647
-        v = h % 11 - 5          # -5 .. 5
-        if v >= 0:
-            v += 1              # never zero: -5..-1, 1..6
-        vals.append(v)
+    exact = not (prog.get("float") or prog.get("xr"))
+    vals = [_elem(seed, i * n + j, exact) for j in range(n)]
+    if prog.get("xr"):
+        import xarray as xr
+        names = internal_names(prog)
+        return xr.DataArray(np.array(vals, dtype=float).reshape(shape), dims=names,
+                            coords={nm: [INTERNAL_COORD0 + 10 * k + j for j in range(shape[k])] for k, nm in enumerate(names)})
     if prog.get("float"):
         return np.array(vals, dtype=float).reshape(shape)
     arr = np.empty(n, dtype=object)
@@ -447,16 +545,25 @@ class Interp:
         return self.node(x)
 
     def values(self, action):
-        """ndarray of shape node_shape + internal_shape"""
+        """(ndarray of shape node_shape + internal_shape, names of the internal dimensions | None). The names are those of the
+        xarray DataArrays the nodes evaluate to (xarray backend); None for plain arrays."""
         data = action.nodes.data
-        out = [np.asarray(self.ref(data[idx])) for idx in np.ndindex(*data.shape)] if data.shape else [np.asarray(self.ref(data.item()))]
+        raw = [self.ref(data[idx]) for idx in np.ndindex(*data.shape)] if data.shape else [self.ref(data.item())]
+        names = None
+        if raw and all(type(o).__name__ == "DataArray" and hasattr(o, "dims") for o in raw):
+            dimsets = {tuple(map(str, o.dims)) for o in raw}
+            if len(dimsets) != 1:
+                raise ValueError(f"nodes of one action evaluate to different internal dimensions {sorted(dimsets)}")
+            names = list(dimsets.pop())
+            raw = [o.values for o in raw]
+        out = [np.asarray(o) for o in raw]
         shapes = {o.shape for o in out}
         if len(shapes) != 1:
             raise ValueError(f"nodes of one action evaluate to different internal shapes {sorted(shapes)}")
         arr = np.empty((len(out),) + out[0].shape, dtype=out[0].dtype)
         for i, o in enumerate(out):
             arr[i] = o
-        return arr.reshape(tuple(data.shape) + out[0].shape)
+        return arr.reshape(tuple(data.shape) + out[0].shape), names
 
 
 # ----------------------------------------------------------------------------- NumPy reference (the oracle's "direct" computation)
@@ -465,9 +572,10 @@ class Ref:
     """What the program denotes when every operation is applied directly to the stacked source
     arrays with NumPy. dims: node dimension names in documented order; labels[d]: coordinate labels
     (None = the operation documents none); data: ndarray, node axes first, then internal axes;
-    ordered: False when the documentation fixes only the set of dimensions, not their order."""
+    ordered: False when the documentation fixes only the set of dimensions, not their order;
+    idims / icoords: names and labels of the internal axes when the values are xarray DataArrays (None for plain arrays)."""
 
-    def __init__(self, dims, labels, data, ordered=True, scalars=()):
+    def __init__(self, dims, labels, data, ordered=True, scalars=(), idims=None, icoords=None):
         self.dims = list(dims)
         self.scalars = set(scalars)   # names of scalar coordinates left behind by select / squeeze
         self.labels = dict(labels)
@@ -477,6 +585,13 @@ class Ref:
             data = d0 if isinstance(data, Fraction) else np.asarray(data)
         self.data = data
         self.ordered = ordered
+        self.idims = None if idims is None else list(idims)
+        self.icoords = None if icoords is None else {k: list(v) for k, v in icoords.items()}
+
+    def like(self, dims, labels, data, ordered=True, idims="same", icoords="same"):
+        """a value derived from this one: the internal dimension names are carried along unless given"""
+        return Ref(dims, labels, data, ordered=ordered,
+                   idims=self.idims if idims == "same" else idims, icoords=self.icoords if icoords == "same" else icoords)
 
     @property
     def nnode(self):
@@ -494,9 +609,31 @@ class Ref:
         perm = [self.dims.index(d) for d in dims] + list(range(self.nnode, self.data.ndim))
         return np.transpose(self.data, perm)
 
+    def spread(self, dims_out, internal_ndim):
+        """data with one node axis per name in dims_out (size 1 where this value has no such dimension: NumPy then broadcasts
+        it) and the internal axes padded in front to internal_ndim"""
+        have = [d for d in dims_out if d in self.dims]
+        data = self.aligned(have)
+        for pos, d in enumerate(dims_out):
+            if d not in self.dims:
+                data = np.expand_dims(data, pos)
+        for _ in range(internal_ndim - len(self.internal)):
+            data = np.expand_dims(data, len(dims_out))
+        return data
+
 
 class RefUndefined(Exception):
     """the reference has no value for this statement (operation raises / undocumented corner)"""
+
+
+def _np(f, *args, **kw):
+    """A NumPy call of the reference that NumPy itself may refuse (shapes do not fit, axis out of range, division by an exact
+    zero): then the operation has no NumPy meaning — `RefUndefined`, with the reason. Any OTHER exception anywhere in the
+    reference is a bug of the reference and is reported as such by `run_ref` (never silently 'no reference')."""
+    try:
+        return f(*args, **kw)
+    except (ValueError, IndexError, TypeError, ZeroDivisionError, OverflowError) as e:
+        raise RefUndefined("numpy refuses: " + type(e).__name__)
 
 
 def _wsum(data, ax):
@@ -509,11 +646,15 @@ def _wsum(data, ax):
 
 def _label_pos(labels, v):
     if labels is None:
-        raise RefUndefined("no labels")
-    hits = [i for i, l in enumerate(labels) if l == v]
+        raise RefUndefined("no documented labels")
+    hits = [i for i, l in enumerate(labels) if _same_label(l, v)]
     if len(hits) != 1:
         raise RefUndefined("label not found exactly once")
     return hits[0]
+
+
+def _same_label(x, y):
+    return type(x) is type(y) and x == y if isinstance(x, str) or isinstance(y, str) else x == y
 
 
 def ref_stmt(st, env, prog):
@@ -529,9 +670,11 @@ def ref_stmt(st, env, prog):
     a = env[st["a"]] if op != "source" else None
     if op in ("select", "iselect") and "val" in st and not st["drop"]:
         scal.add(st["dim"])
+    if op == "selectn" and not st["drop"]:
+        scal |= {c[0] for c in st["crit"] if c[1] == "val"}
     if op in ("stack", "concatenate") and not st["keep"] and len(r.dims) < len(a.dims) and r.data.ndim == a.data.ndim - 1:
         scal.add(st["dim"])
-    if op in ("expand", "transform") and (st["size"] if op == "expand" else len(st["params"])) == 1:
+    if op in ("expand", "transform") and _nparams(st) == 1:
         scal.add(st["dim"] if isinstance(st["dim"], str) else st["dim"][0])
     if op == "transform" and st["func"] == "sel":
         scal.discard(st["fdim"]) if len(st["params"]) > 1 else scal.add(st["fdim"])
@@ -541,6 +684,60 @@ def ref_stmt(st, env, prog):
     return r
 
 
+def _nparams(st):
+    if st["op"] == "transform":
+        return len(st["params"])
+    if "icoord" in st:
+        return len(st["icoord"][1])
+    return st.get("size") if st.get("size") is not None else -1
+
+
+def _kw(st):
+    return dict((k, v) for k, v in (st.get("kw") or []))
+
+
+def _select_one(a, how, dim, kind, x):
+    """one criterion of select / iselect applied to the reference value"""
+    if dim not in a.dims:
+        raise RefUndefined("criterion on a non-dimension")
+    ax = a.ax(dim)
+    n = a.data.shape[ax]
+    rest = [d for d in a.dims if d != dim]
+    if kind == "val":
+        i = _label_pos(a.labels[dim], x) if how == "select" else x
+        if not (0 <= i < n):
+            raise RefUndefined("index")
+        return a.like(rest, {d: a.labels[d] for d in rest}, np.take(a.data, i, axis=ax))
+    if how == "select" and a.labels[dim] is not None and len({(type(l).__name__, l) for l in a.labels[dim]}) != len(a.labels[dim]):
+        # pandas refuses a LIST selection on a coordinate with repeated labels, whatever is asked for
+        raise RefUndefined("list selection on a coordinate with repeated labels")
+    idx = [(_label_pos(a.labels[dim], v) if how == "select" else v) for v in x]
+    if any(not (0 <= i < n) for i in idx):
+        raise RefUndefined("index")
+    labels = dict(a.labels)
+    labels[dim] = None if a.labels[dim] is None else [a.labels[dim][i] for i in idx]
+    return a.like(a.dims, labels, np.take(a.data, idx, axis=ax))
+
+
+def _new_internal_axis(a, st, what):
+    """stack / flatten: (position k of the new internal axis counted from the front, idims, icoords) — `numpy.stack(arrays, axis)`;
+    on DataArrays the new axis needs a name (`backend_kwargs={"dim": name}`)"""
+    kw = _kw(st)
+    axis = st.get("axis", 0)
+    nd = len(a.internal)
+    k = axis + nd + 1 if axis < 0 else axis
+    if not (0 <= k <= nd):
+        raise RefUndefined("axis")
+    if a.idims is None:
+        if kw:
+            raise RefUndefined("backend kwargs the array backend's %s does not take" % what)
+        return k, None, None
+    name = kw.pop("dim", None)
+    if not isinstance(name, str) or name in a.idims or kw:
+        raise RefUndefined("xarray %s needs backend_kwargs={'dim': <new name>} only" % what)
+    return k, a.idims[:k] + [name] + a.idims[k:], a.icoords
+
+
 def _ref_stmt(st, env, prog):
     op = st["op"]
     if op == "source":
@@ -548,8 +745,13 @@ def _ref_stmt(st, env, prog):
         shape = tuple(len(l) for _, l in st["dims"])
         n = int(np.prod(shape)) if shape else 1
         vals = [source_value(prog, st["base"] + i) for i in range(n)]
+        idims = icoords = None
+        if prog.get("xr"):
+            idims = internal_names(prog)
+            icoords = {nm: [INTERNAL_COORD0 + 10 * k + j for j in range(prog["internal"][k])] for k, nm in enumerate(idims)}
+            vals = [v.values for v in vals]
         data = np.array(vals, dtype=vals[0].dtype).reshape(shape + vals[0].shape)
-        return Ref(dims, {d: list(l) for d, l in st["dims"]}, data)
+        return Ref(dims, {d: list(l) for d, l in st["dims"]}, data, idims=idims, icoords=icoords)
     a = env[st["a"]]
     if a is None:
         raise RefUndefined("operand undefined")
@@ -564,16 +766,22 @@ def _ref_stmt(st, env, prog):
     if op == "map":
         fn = st["fn"]
         if fn == "neg":
-            return Ref(a.dims, a.labels, -a.data)
+            return a.like(a.dims, a.labels, -a.data)
         if fn == "affine":
-            return Ref(a.dims, a.labels, a.data * st["k"] + 1)
+            return a.like(a.dims, a.labels, a.data * st["k"] + 1)
         if fn == "twice":
             y, yl = st["yields"]
             data = np.stack([a.data, 2 * a.data], axis=a.nnode)
             if len(yl) != 2 or y in a.dims:
                 raise RefUndefined("yields")
-            return Ref(a.dims + [y], {**a.labels, y: list(yl)}, data)
+            return a.like(a.dims + [y], {**a.labels, y: list(yl)}, data)
         raise RefUndefined(fn)
+    if op == "mapn":
+        # one payload per node: node idx gets affine(k[idx]) — NumPy: data * K + 1 with K shaped like the node array
+        if tuple(st["shape"]) != a.data.shape[:a.nnode]:
+            raise RefUndefined("payload array shape differs from the node array shape")
+        ks = np.array(st["ks"], dtype=object if a.data.dtype == object else float).reshape(tuple(st["shape"]) + (1,) * len(a.internal))
+        return a.like(a.dims, a.labels, a.data * ks + 1)
     if op in ("reduce", "named"):
         ax = a.ax(dim)
         n = a.data.shape[ax]
@@ -602,7 +810,7 @@ def _ref_stmt(st, env, prog):
                     data = np.expand_dims(data, ax)
                     dims = dims[:ax] + [dim] + dims[ax:]
                     labels[dim] = None
-                return Ref(dims, labels, data)
+                return a.like(dims, labels, data)
             else:
                 raise RefUndefined(fn)
         else:
@@ -614,13 +822,17 @@ def _ref_stmt(st, env, prog):
             f = {"sum": np.sum, "prod": np.prod, "min": np.min, "max": np.max, "mean": np.mean, "std": np.std}[name]
             if name == "std" and a.data.dtype == object:
                 raise RefUndefined("std needs float mode")
-            data = f(a.data, axis=ax)
+            kw = _kw(st)
+            kw.pop("axis", None)     # both backends fix the axis themselves when given several arrays
+            if kw:
+                raise RefUndefined("backend kwargs")
+            data = _np(f, a.data, axis=ax)
         dims = rest
         if keep:
             data = np.expand_dims(data, ax)
             dims = rest[:ax] + [dim] + rest[ax:]
             labels[dim] = None       # the docstring promises the dimension and its position, no label
-        return Ref(dims, labels, data)
+        return a.like(dims, labels, data)
     if op in ("stack", "concatenate", "flatten"):
         ax = a.ax(dim)
         n = a.data.shape[ax]
@@ -628,79 +840,134 @@ def _ref_stmt(st, env, prog):
         labels = {d: a.labels[d] for d in rest}
         keep = st.get("keep", False)
         bs = st.get("bs", 0)
+        idims, icoords = a.idims, a.icoords
         if op != "flatten" and n == 1:
             # documented as a no-op on a single element
             if keep:
-                return Ref(a.dims, a.labels, a.data)
-            return Ref(rest, labels, np.take(a.data, 0, axis=ax))
+                return a.like(a.dims, a.labels, a.data)
+            return a.like(rest, labels, np.take(a.data, 0, axis=ax))
         if op == "stack" and 1 < bs < n:
             raise RefUndefined("stack is not batchable")
         if op == "concatenate":
-            if len(a.internal) < 1:
-                raise RefUndefined("concat of 0-d arrays")
-            moved = np.moveaxis(a.data, ax, a.nnode - 1)
+            kw = _kw(st)
+            if a.idims is None:
+                k = kw.pop("axis", 0)
+                if kw or not isinstance(k, int):
+                    raise RefUndefined("backend kwargs")
+            else:
+                nm = kw.pop("dim", None)
+                if kw or nm not in a.idims:
+                    raise RefUndefined("xarray concat needs backend_kwargs={'dim': <existing internal dim>}")
+                k = a.idims.index(nm)
+                icoords = dict(a.icoords)
+                if nm in icoords:          # a dimension that stack() introduced has no labels
+                    icoords[nm] = icoords[nm] * n
+            nd = len(a.internal)
+            if nd < 1 or not (-nd <= k < nd):
+                raise RefUndefined("concat axis")
+            k %= nd
+            # numpy.concatenate(the n arrays along the node dimension, axis=k): move the node axis in front of internal axis k, merge
+            moved = np.moveaxis(a.data, ax, a.nnode - 1 + k)
             shp = moved.shape
-            data = moved.reshape(shp[:a.nnode - 1] + (shp[a.nnode - 1] * shp[a.nnode],) + shp[a.nnode + 1:])
+            p = a.nnode - 1 + k
+            data = moved.reshape(shp[:p] + (shp[p] * shp[p + 1],) + shp[p + 2:])
         else:
-            k = st["axis"]
-            if not (0 <= k <= len(a.internal)):
-                raise RefUndefined("axis")
+            k, idims, icoords = _new_internal_axis(a, st, "stack")
             data = np.moveaxis(a.data, ax, a.nnode - 1 + k)
         dims = rest
         if keep:
             data = np.expand_dims(data, ax)
             dims = rest[:ax] + [dim] + rest[ax:]
             labels[dim] = None
-        return Ref(dims, labels, data)
+        return a.like(dims, labels, data, idims=idims, icoords=icoords)
     if op in ("select", "iselect"):
-        if dim not in a.dims:
-            raise RefUndefined("criterion on a non-dimension")
-        ax = a.ax(dim)
-        n = a.data.shape[ax]
-        rest = [d for d in a.dims if d != dim]
-        if "val" in st:
-            i = _label_pos(a.labels[dim], st["val"]) if op == "select" else st["val"]
-            if not (0 <= i < n):
-                raise RefUndefined("index")
-            return Ref(rest, {d: a.labels[d] for d in rest}, np.take(a.data, i, axis=ax))
-        idx = [(_label_pos(a.labels[dim], v) if op == "select" else v) for v in st["vals"]]
-        if any(not (0 <= i < n) for i in idx):
-            raise RefUndefined("index")
-        labels = dict(a.labels)
-        labels[dim] = None if a.labels[dim] is None else [a.labels[dim][i] for i in idx]
-        return Ref(a.dims, labels, np.take(a.data, idx, axis=ax))
+        return _select_one(a, op, dim, "val" if "val" in st else "vals", st["val"] if "val" in st else st["vals"])
+    if op == "selectn":
+        if len({c[0] for c in st["crit"]}) != len(st["crit"]):
+            raise RefUndefined("a criterion given twice")
+        r = a
+        for d_, kind, x in st["crit"]:
+            r = _select_one(r, st["how"], d_, kind, x)
+        return r
     if op == "expand":
         d = st["dim"]
         name, lab = (d, None) if isinstance(d, str) else (d[0], list(d[1]))
-        i, size, axis = st["internal"], st["size"], st["axis"]
-        if -len(a.internal) <= i < 0:
-            i += len(a.internal)
-        if name in a.dims or not (0 <= i < len(a.internal)) or not (1 <= size <= a.internal[i]) or not (0 <= axis <= a.nnode):
+        axis = st["axis"]
+        kw = _kw(st)
+        nd = len(a.internal)
+        if "icoord" in st:
+            # internal_dim = (name of the internal dimension, the selection criteria): only arrays with NAMED dimensions have that
+            iname, crit = st["icoord"]
+            if a.idims is None or iname not in a.idims:
+                raise RefUndefined("internal dimension by name on plain arrays")
+            i = a.idims.index(iname)
+            method = kw.pop("method", "isel")
+            if kw or method not in ("isel", "sel"):
+                raise RefUndefined("backend kwargs")
+            pos = [(_label_pos(a.icoords[iname], c) if method == "sel" else c) for c in crit]
+            size = len(pos)
+        else:
+            i, size = st["internal"], st.get("size")
+            if size is None:
+                raise RefUndefined("dim_size is required")
+            if isinstance(i, str):
+                if a.idims is None or i not in a.idims:
+                    raise RefUndefined("internal dimension by name on plain arrays")
+                i = a.idims.index(i)
+            mode = None
+            if a.idims is None:
+                mode = kw.pop("mode", None)          # numpy.take(..., mode="wrap" | "clip")
+                if mode not in (None, "wrap", "clip"):
+                    raise RefUndefined("backend kwargs")
+            else:
+                if kw.pop("missing_dims", "raise") != "raise" or kw.pop("drop", True) is not True:
+                    raise RefUndefined("backend kwargs")
+            if kw:
+                raise RefUndefined("backend kwargs")
+            if -nd <= i < 0:
+                i += nd
+            pos = list(range(size))
+            if mode is not None and 0 <= i < nd and size >= 1:
+                m_ = a.internal[i]
+                pos = [(q % m_) if mode == "wrap" else min(q, m_ - 1) for q in pos]
+        if name in a.dims or not (0 <= i < nd) or size < 1 or not (0 <= axis <= a.nnode):
             raise RefUndefined("expand arguments")
+        if any((not isinstance(q, int)) or not (0 <= q < a.internal[i]) for q in pos):
+            raise RefUndefined("expand index outside the internal axis")
         if lab is not None and len(lab) != size:
             raise RefUndefined("labels")
-        data = np.take(a.data, list(range(size)), axis=a.nnode + i)
+        data = np.take(a.data, pos, axis=a.nnode + i)
         data = np.moveaxis(data, a.nnode + i, axis)
+        idims = None if a.idims is None else a.idims[:i] + a.idims[i + 1:]
+        icoords = None if a.icoords is None else {k_: v for k_, v in a.icoords.items() if k_ in idims}
         if size == 1:
             # "Remove expanded dimension if only a single element"
-            return Ref(a.dims, a.labels, np.take(data, 0, axis=axis))
+            return a.like(a.dims, a.labels, np.take(data, 0, axis=axis), idims=idims, icoords=icoords)
         dims = a.dims[:axis] + [name] + a.dims[axis:]
-        return Ref(dims, {**a.labels, name: lab if lab is not None else list(range(size))}, data)
+        return a.like(dims, {**a.labels, name: lab if lab is not None else list(range(size))}, data, idims=idims, icoords=icoords)
     if op == "broadcast":
         b = env[st["b"]]
         if b is None:
             raise RefUndefined("operand undefined")
+        excl = set(st.get("exclude") or [])
+        if ((a.scalars & (b.scalars | set(b.dims))) | (b.scalars & set(a.dims))) - excl:
+            # the code compares coordinates of the same name, scalar ones included; the reference does not follow their values
+            raise RefUndefined("a scalar coordinate is named like a coordinate of the other action")
         for d in b.dims:
+            if d in excl:
+                continue
             if d in a.dims and (a.labels[d] is None or b.labels[d] is None or a.labels[d] != b.labels[d]):
                 raise RefUndefined("coordinates of shared dimensions differ")
-        extra = [d for d in b.dims if d not in a.dims]
+        extra = [d for d in b.dims if d not in a.dims and d not in excl]
         sizes = [b.data.shape[b.ax(d)] for d in extra]
         data = np.broadcast_to(a.data, tuple(sizes) + a.data.shape)
-        return Ref(extra + a.dims, {**a.labels, **{d: b.labels[d] for d in extra}}, data, ordered=False)
+        return a.like(extra + a.dims, {**a.labels, **{d: b.labels[d] for d in extra}}, data, ordered=False)
     if op in ("join", "arith") and "b" in st:
         b = env[st["b"]]
         if b is None:
             raise RefUndefined("operand undefined")
+        if (a.idims is None) != (b.idims is None) or (a.idims is not None and a.idims != b.idims):
+            raise RefUndefined("internal dimensions differ")
     if op == "join":
         d = st["dim"]
         name, lab = (d, None) if isinstance(d, str) else (d[0], list(d[1]))
@@ -710,6 +977,8 @@ def _ref_stmt(st, env, prog):
                 raise RefUndefined("different dimensions")
             bd = b.aligned(a.dims)
             for x in rest:
+                if not st["match"] and (a.labels[x] is None or b.labels[x] is None):
+                    raise RefUndefined("labels of a shared dimension are not documented (join is exact on labels)")
                 if not st["match"] and a.labels[x] != b.labels[x]:
                     raise RefUndefined("coords differ")
                 if a.data.shape[a.ax(x)] != bd.shape[a.ax(x)]:
@@ -723,32 +992,52 @@ def _ref_stmt(st, env, prog):
                 raise RefUndefined("coordinate on one side only")
             labels = dict(a.labels)
             labels[name] = None if (la is None or lb is None or st["match"]) else la + lb
-            return Ref(a.dims, labels, np.concatenate([a.data, bd], axis=a.ax(name)))
+            return a.like(a.dims, labels, _np(np.concatenate, [a.data, bd], axis=a.ax(name)))
         if name in a.dims or name in b.dims:
             raise RefUndefined("join dimension present on one side only")
-        if set(a.dims) != set(b.dims) or a.internal != b.internal:
-            raise RefUndefined("different dimensions")
-        bd = b.aligned(a.dims)
-        if bd.shape != a.data.shape:
-            raise RefUndefined("sizes differ")
-        for x in a.dims:
-            if not st["match"] and a.labels[x] != b.labels[x]:
-                raise RefUndefined("coords differ")
+        if a.internal != b.internal:
+            raise RefUndefined("internal shapes differ")
+        # stacking along a NEW dimension; a dimension only one side has is broadcast (by NAME) on the other
+        union = a.dims + [x for x in b.dims if x not in a.dims]
+        labels = dict(a.labels)
+        for x in union:
+            if x in a.dims and x in b.dims:
+                if a.data.shape[a.ax(x)] != b.data.shape[b.ax(x)]:
+                    raise RefUndefined("sizes differ")
+                if not st["match"] and (a.labels[x] is None or b.labels[x] is None):
+                    raise RefUndefined("labels of a shared dimension are not documented (join is exact on labels)")
+                if not st["match"] and a.labels[x] != b.labels[x]:
+                    raise RefUndefined("coords differ")
+            elif x not in a.dims:
+                labels[x] = b.labels[x]
         if lab is not None and len(lab) != 2:
             raise RefUndefined("labels")
-        return Ref([name] + a.dims, {**a.labels, name: lab}, np.stack([a.data, bd], axis=0), ordered=False)
+        nd = len(a.internal)
+        full = _np(np.broadcast_shapes, a.spread(union, nd).shape, b.spread(union, nd).shape)
+        data = np.stack([np.broadcast_to(a.spread(union, nd), full), np.broadcast_to(b.spread(union, nd), full)], axis=0)
+        return a.like([name] + union, {**labels, name: lab}, data, ordered=False)
     if op == "arith":
         fn = st["fn"]
         f = {"add": lambda x, y: x + y, "subtract": lambda x, y: x - y, "multiply": lambda x, y: x * y,
              "divide": lambda x, y: x / y, "pow": lambda x, y: x ** y}[fn]
         if "b" not in st:
-            return Ref(a.dims, a.labels, f(a.data, st["scalar"]))
-        if set(a.dims) != set(b.dims):
-            raise RefUndefined("different dimensions")
-        bd = b.aligned(a.dims)
-        if bd.shape[:a.nnode] != a.data.shape[:a.nnode]:
-            raise RefUndefined("sizes differ")
-        return Ref(a.dims, a.labels, f(a.data, bd))
+            return a.like(a.dims, a.labels, _np(f, a.data, st["scalar"]))
+        if fn == "pow":
+            # the exponents would be source values (32-bit magnitudes): not evaluated — the tie still compares the graph
+            raise RefUndefined("power with an array exponent is not evaluated")
+        # element-wise between two node arrays: dimensions are matched by NAME, a dimension only one side has is broadcast
+        union = a.dims + [x for x in b.dims if x not in a.dims]
+        labels = dict(a.labels)
+        for x in union:
+            if x in a.dims and x in b.dims:
+                if a.data.shape[a.ax(x)] != b.data.shape[b.ax(x)]:
+                    raise RefUndefined("sizes of a shared dimension differ (no broadcasting by name)")
+            elif x not in a.dims:
+                labels[x] = b.labels[x]
+        nd = max(len(a.internal), len(b.internal))
+        if a.idims is not None and len(a.internal) != len(b.internal):
+            raise RefUndefined("internal dimensions differ")
+        return a.like(union, labels, _np(f, a.spread(union, nd), b.spread(union, nd)), ordered=set(a.dims) == set(b.dims))
     if op == "transform":
         kind, params, axis = st["func"], st["params"], st["axis"]
         d = st["dim"]
@@ -758,13 +1047,15 @@ def _ref_stmt(st, env, prog):
         pieces = []
         for p in params:
             if kind == "mul":
-                pieces.append(Ref(a.dims, a.labels, a.data * p))
+                pieces.append(a.like(a.dims, a.labels, a.data * p))
             elif kind in ("seldrop", "sel"):
-                pieces.append(_ref_stmt({"op": "select", "a": 0, "dim": st["fdim"], "val": p, "drop": True}, [a], prog))
+                pieces.append(_select_one(a, "select", st["fdim"], "val", p))
             elif kind == "take":
                 if len(a.internal) < 1 or not (0 <= p < a.internal[0]):
                     raise RefUndefined("take")
-                pieces.append(Ref(a.dims, a.labels, np.take(a.data, p, axis=a.nnode)))
+                pieces.append(a.like(a.dims, a.labels, np.take(a.data, p, axis=a.nnode),
+                                     idims=None if a.idims is None else a.idims[1:],
+                                     icoords=None if a.icoords is None else {k_: v for k_, v in a.icoords.items() if k_ != a.idims[0]}))
             else:
                 raise RefUndefined(kind)
         p0 = pieces[0]
@@ -776,7 +1067,7 @@ def _ref_stmt(st, env, prog):
                 raise RefUndefined("sel joins along the selected dimension")
             if len(params) == 1:
                 return p0
-            return Ref([name] + p0.dims, {**p0.labels, name: list(params)}, np.stack([x.data for x in pieces], axis=0), ordered=False)
+            return p0.like([name] + p0.dims, {**p0.labels, name: list(params)}, np.stack([x.data for x in pieces], axis=0), ordered=False)
         if not (0 <= axis <= p0.nnode):
             raise RefUndefined("axis")
         if lab is not None and len(lab) < len(params):
@@ -785,24 +1076,35 @@ def _ref_stmt(st, env, prog):
             return p0
         dims = p0.dims[:axis] + [name] + p0.dims[axis:]
         labels = {**p0.labels, name: (lab[:len(params)] if lab is not None else list(range(len(params))))}
-        return Ref(dims, labels, np.stack([x.data for x in pieces], axis=axis))
+        return p0.like(dims, labels, np.stack([x.data for x in pieces], axis=axis))
     raise RefUndefined(op)
+
+
+class RefEnv(list):
+    """reference values per statement (None = no reference value) + why[k] = the reason + crashed = [(k, text)] for
+    statements on which the REFERENCE ITSELF failed (a bug of the oracle, reported loudly by the check)"""
+
+    def __init__(self):
+        super().__init__()
+        self.why = {}
+        self.crashed = []
 
 
 def run_ref(prog, real=None):
     """reference values of all statements. Where the documentation fixes only the *set* of dimensions
     (broadcast, join on a new dimension) the reference adopts the order the implementation chose, so that
     later, order-sensitive statements are judged relative to it."""
-    env = []
+    env = RefEnv()
     for k, st in enumerate(prog["stmts"]):
         try:
             r = ref_stmt(st, env, prog)
-        except RefUndefined:
+        except RefUndefined as e:
             r = None
-        except (ZeroDivisionError, OverflowError):
+            env.why[k] = str(e)
+        except Exception as e:      # NOT "no reference": the reference is broken on this input
             r = None
-        except (ValueError, IndexError, TypeError, KeyError):
-            r = None        # NumPy itself refuses the operation (e.g. internal shapes do not fit): no reference value
+            env.why[k] = "REFERENCE CRASHED"
+            env.crashed.append((k, f"{type(e).__name__}: {str(e)[:160]}"))
         if r is not None and not r.ordered and real is not None and not isinstance(real[k], tuple):
             dims = [str(d) for d in real[k].nodes.dims]
             if sorted(dims) == sorted(r.dims) and len(set(dims)) == len(dims):
@@ -831,15 +1133,17 @@ def oracle_stmt(prog, k, real, ref, interp, scale=1.0):
         want = ref.labels.get(d)
         if want is None:
             continue
-        got = [_canon_label(x) for x in n.coords[d].data.tolist()] if d in n.coords else list(range(n.sizes[d]))
-        if got != [_canon_label(x) for x in want]:
+        got = [_strict_label(x) for x in n.coords[d].data.tolist()] if d in n.coords else list(range(n.sizes[d]))
+        if got != [_strict_label(x) for x in want]:
             return ("coords", f"statement {k} {st}: coordinate {d} = {got}, documented {want}")
     try:
-        got = interp.values(real)
+        got, inames = interp.values(real)
     except ZeroDivisionError:
         return None
     except Exception as e:
         return ("eval-raises", f"statement {k} {st}: evaluating the graph raised {type(e).__name__}: {str(e)[:120]}")
+    if (inames is None) != (ref.idims is None) or (inames is not None and inames != ref.idims):
+        return ("internal-dims", f"statement {k} {st}: the values have internal dimensions {inames}, the direct computation {ref.idims}")
     want = ref.aligned(dims)
     if got.shape != want.shape:
         return ("value-shape", f"statement {k} {st}: value shape {got.shape}, NumPy {want.shape}")
@@ -881,6 +1185,14 @@ def _allclose(got, want, scale=1.0):
     return bool(np.all(ok))
 
 
+def has_nan(interp, action):
+    try:
+        got, _ = interp.values(action)
+        return bool(np.isnan(got.astype(float)).any())
+    except Exception:
+        return False
+
+
 def float_scale(prog, k, refs):
     """magnitude of the operands of statement k (1 for exact programs): float tolerances are relative to it"""
     if not prog.get("float"):
@@ -902,11 +1214,22 @@ NAMED = ["sum", "prod", "min", "max", "mean", "std"]
 
 
 class Gen:
-    def __init__(self, rng, max_ops=4, max_pos=36, allow_float=True):
+    def __init__(self, rng, max_ops=4, max_pos=36, allow_float=True, ext=False):
         self.rng = rng
         self.max_ops = max_ops
         self.max_pos = max_pos
-        self.prog = {"stmts": [], "internal": rng.choice([[], [3], [3], [2, 2], [2, 3]]), "vseed": rng.randrange(1000), "float": False}
+        self.ext = ext          # C13's extended vocabulary (C14's model knows the basic one only)
+        if ext:
+            internal = rng.choice([[], [3], [3], [2, 2], [2, 3], [3, 2], [4], [5], [2, 3, 2], [4, 3], [3, 3]])
+        else:
+            internal = rng.choice([[], [3], [3], [2, 2], [2, 3]])
+        self.prog = {"stmts": [], "internal": internal, "vseed": rng.randrange(1000), "float": False}
+        if ext and rng.random() < 0.3:
+            self.prog["xr"] = True      # values are xarray DataArrays: the other backend is dispatched
+            if not internal:
+                self.prog["internal"] = rng.choice([[3], [2, 3]])
+        self.xr = bool(self.prog.get("xr"))
+        self.max_size = 7 if ext else 5
         self.allow_float = allow_float
         self.env = []      # real results
         self.fresh = 0
@@ -925,6 +1248,8 @@ class Gen:
         return ["abcdefgh"[j] if j < 8 else "l%d" % j for j in range(n)]
 
     def push(self, st):
+        if self.ext and st["op"] not in ("source", "alias") and "reg" not in st and self.rng.random() < 0.08:
+            st = dict(st, reg=self.rng.choice(["default", "c13sub"]))
         self.prog["stmts"].append(st)
         k = len(self.env)
         if any(isinstance(self.env[o], tuple) for o in operands(st)):
@@ -950,7 +1275,7 @@ class Gen:
         rng = self.rng
         nd = rng.randint(1, 3)
         while True:
-            sizes = [rng.randint(1, 5) for _ in range(nd)]
+            sizes = [rng.randint(1, self.max_size) for _ in range(nd)]
             if int(np.prod(sizes)) <= self.max_pos:
                 break
         return [[f"d{i}", self.labels_for(s)] for i, s in enumerate(sizes)]
@@ -998,8 +1323,12 @@ class Gen:
         ind = self.internal_ndim(k)
         kinds = ["named"] * 6 + ["reduce"] * 2 + ["map"] * 2 + ["stack", "concatenate", "flatten", "select", "select", "iselect",
                  "expand", "expand", "broadcast", "broadcast", "join", "join", "arith", "arith", "arith", "transform", "transform"]
+        if self.ext:
+            kinds += ["mapn", "selectn", "selectn", "arithx", "arithx", "arithx", "joinx", "unindexed", "unindexed", "expand", "expand"]
         kind = rng.choice(kinds)
         bad = rng.random() < 0.08     # deliberately invalid argument
+        if self.ext and kind in ("mapn", "selectn", "arithx", "joinx", "unindexed"):
+            return self.op_ext(kind, k, dims, names, sizes, ind, bad)
         if kind in ("named", "reduce", "stack", "concatenate", "flatten", "select", "iselect") and not names:
             kind = "map"
         d = rng.choice(names) if names else ""
@@ -1044,13 +1373,14 @@ class Gen:
             return self.push(st)
         if kind == "stack":
             axis = rng.randint(0, ind) if ind else 0
-            return self.push({"op": "stack", "a": k, "dim": "zz" if bad else d, "bs": bs if bad else rng.choice([0, 1, n, n + 2]), "keep": keep, "axis": axis})
+            st = {"op": "stack", "a": k, "dim": "zz" if bad else d, "bs": bs if bad else rng.choice([0, 1, n, n + 2]), "keep": keep, "axis": axis}
+            return self.push(self.with_backend_kw(st, k, ind))
         if kind == "concatenate":
             if not ind:
-                return self.push({"op": "flatten", "a": k, "dim": d, "axis": 0})
-            return self.push({"op": "concatenate", "a": k, "dim": d, "bs": bs, "keep": keep})
+                return self.push(self.with_backend_kw({"op": "flatten", "a": k, "dim": d, "axis": 0}, k, ind))
+            return self.push(self.with_backend_kw({"op": "concatenate", "a": k, "dim": d, "bs": bs, "keep": keep}, k, ind))
         if kind == "flatten":
-            return self.push({"op": "flatten", "a": k, "dim": d, "axis": rng.randint(0, ind) if ind else 0})
+            return self.push(self.with_backend_kw({"op": "flatten", "a": k, "dim": d, "axis": rng.randint(0, ind) if ind else 0}, k, ind))
         if kind == "select":
             lab = dict(dims)[d]
             scal = [(str(c), _canon_label(v.data.item())) for c, v in a.nodes.coords.items() if c not in a.nodes.dims and v.data.shape == ()]
@@ -1078,9 +1408,36 @@ class Gen:
             size = m + 1 if (bad and rng.random() < 0.3) else rng.randint(1, m)
             nm = self.name("e")
             dim = nm if rng.random() < 0.6 else [nm, self.labels_for(size if not bad else size + 1, "str")]
-            if rng.random() < 0.35:
+            if self.ext and ref.idims is not None and rng.random() < 0.75:
+                # arrays with named dimensions: the internal dimension by NAME, or as (name, selection criteria)
+                iname = ref.idims[i]
+                st = {"op": "expand", "a": k, "dim": dim, "axis": rng.randint(0, len(names))}
+                if rng.random() < 0.4:
+                    st.update(internal=iname, size=size)
+                else:
+                    pos = rng.sample(range(m), size) if size <= m else list(range(size))
+                    if rng.random() < 0.5 or iname not in (ref.icoords or {}):
+                        st.update(icoord=[iname, pos])
+                    else:
+                        st.update(icoord=[iname, [ref.icoords[iname][q] if q < m else 9999 for q in pos]], kw=[["method", "sel"]])
+                    if rng.random() < 0.15:
+                        st["size"] = size     # ignored by expand when internal_dim is a Coord
+                return self.push(st)
+            if rng.random() < (0.6 if (self.ext and ind >= 2) else 0.35):
                 i -= ind          # the same internal axis counted from the end (numpy.take accepts negative axes)
-            return self.push({"op": "expand", "a": k, "dim": dim, "internal": i, "size": size, "axis": rng.randint(0, len(names))})
+            st = {"op": "expand", "a": k, "dim": dim, "internal": i, "size": size, "axis": rng.randint(0, len(names))}
+            if self.ext and rng.random() < 0.3:
+                # backend_kwargs travel to the backend's take: numpy.take(mode=...) lets the index run past the end
+                if ref.idims is None:
+                    st["kw"] = [["mode", rng.choice(["wrap", "clip"])]]
+                    st["size"] = rng.randint(1, m + 2)
+                    if not isinstance(dim, str):
+                        st["dim"] = [dim[0], self.labels_for(st["size"], "str")]
+                else:
+                    st["kw"] = [["missing_dims", "raise"]]
+            if self.ext and bad and rng.random() < 0.3:
+                st["size"] = None     # dim_size forgotten
+            return self.push(st)
         if kind == "broadcast":
             # the other action: shares some of k's dimensions (same labels) and brings new ones
             plain = all(OPAQUE not in l for _, l in dims)
@@ -1088,7 +1445,12 @@ class Gen:
             if cands and rng.random() < 0.3 or not plain:
                 if not cands:
                     return self.op_map_fallback(k)
-                return self.push({"op": "broadcast", "a": k, "b": rng.choice(cands)})
+                st = {"op": "broadcast", "a": k, "b": rng.choice(cands)}
+                if self.ext and rng.random() < 0.35:
+                    od_names = [x for x, _ in self.dims_of(st["b"])]
+                    pool = od_names + names
+                    st["exclude"] = rng.sample(pool, rng.randint(0, min(2, len(pool)))) if pool else []
+                return self.push(st)
             shared = [[d_, list(l)] for d_, l in dims if rng.random() < 0.6]
             if bad and shared:
                 shared[0][1] = [v if isinstance(v, str) else v + 1 for v in shared[0][1]]
@@ -1098,7 +1460,11 @@ class Gen:
             if not od or int(np.prod([len(l) for _, l in od])) * int(np.prod([len(l) for d_, l in dims if d_ not in [x[0] for x in od]] or [1])) > 3 * self.max_pos:
                 od = od[:1] or [[self.name("b"), self.labels_for(2)]]
             j = self.new_source(od)
-            return self.push({"op": "broadcast", "a": k, "b": j})
+            st = {"op": "broadcast", "a": k, "b": j}
+            if self.ext and rng.random() < 0.35:
+                pool = [x[0] for x in od] + names + ["zz"]
+                st["exclude"] = rng.sample(pool, rng.randint(0, min(2, len(pool))))
+            return self.push(st)
         if kind == "join":
             match = rng.random() < 0.4
             j = self.partner(k, relabel=match)
@@ -1147,6 +1513,135 @@ class Gen:
             return self.push(st)
         return self.op_map_fallback(k)
 
+    def with_backend_kw(self, st, k, ind):
+        """ext: negative axes, and the keyword arguments the backend needs (DataArrays: the NAME of the axis)"""
+        rng = self.rng
+        if not self.ext:
+            return st
+        if st["op"] in ("stack", "flatten") and ind is not None and rng.random() < 0.35:
+            st["axis"] = -rng.randint(1, ind + 1)
+        ref = run_ref(self.prog)[k]
+        if ref is not None and ref.idims is not None:
+            if st["op"] in ("stack", "flatten"):
+                if rng.random() < 0.93:
+                    st["kw"] = [["dim", self.name("s")]]
+            elif ref.idims and rng.random() < 0.93:
+                st["kw"] = [["dim", rng.choice(ref.idims)]]
+        elif st["op"] == "concatenate" and ind and rng.random() < 0.3:
+            st["kw"] = [["axis", rng.randint(-ind, ind - 1)]]
+        return st
+
+    def sub_source(self, dims, allow_extra=True):
+        """a fresh source over a subset of the given dimensions (same labels), possibly with one dimension of its own"""
+        rng = self.rng
+        od = [[d, list(l)] for d, l in dims if rng.random() < 0.5 and OPAQUE not in l and not any(str(x).startswith("keep:") for x in l)]
+        if allow_extra and (not od or rng.random() < 0.4):
+            od.append([self.name("x"), self.labels_for(rng.randint(1, 3))])
+        rng.shuffle(od)
+        return self.new_source(od)
+
+    def op_ext(self, kind, k, dims, names, sizes, ind, bad):
+        rng = self.rng
+        a = self.env[k]
+        if kind == "mapn":
+            shape = [sizes[d] for d in names]
+            n = int(np.prod(shape)) if shape else 1
+            ks = [rng.choice([2, 3, 5, 7, -1, -2, 4, 6, 9, 11]) + 20 * i for i in range(n)]     # every node its own payload
+            if bad and len(shape) >= 2 and len(set(shape)) > 1:
+                shape = shape[::-1]
+            elif bad:
+                shape, ks = shape + [2], ks + ks
+            return self.push({"op": "mapn", "a": k, "shape": shape, "ks": ks, "as": rng.choice(["ndarray", "list"])})
+        if kind == "selectn":
+            if not names:
+                return self.op_map_fallback(k)
+            how = rng.choice(["select", "iselect"])
+            chosen = rng.sample(names, rng.randint(1, min(3, len(names))))
+            crit = []
+            for d in chosen:
+                lab = dict(dims)[d]
+                opaque = OPAQUE in lab
+                if how == "select" and not opaque:
+                    if rng.random() < 0.6:
+                        crit.append([d, "val", rng.choice(lab)])
+                    else:
+                        crit.append([d, "vals", rng.sample(lab, rng.randint(1, len(lab)))])
+                else:
+                    how_here = "iselect"
+                    if how != how_here:
+                        how = how_here
+                        crit = []
+                    if rng.random() < 0.6:
+                        crit.append([d, "val", rng.randrange(sizes[d])])
+                    else:
+                        crit.append([d, "vals", [rng.randrange(sizes[d]) for _ in range(rng.randint(1, sizes[d]))]])
+            if bad:
+                if rng.random() < 0.5:
+                    crit.append(["zz", "val", 0])
+                elif how == "select":
+                    crit[-1] = [crit[-1][0], "val", 12345]
+                else:
+                    crit[-1] = [crit[-1][0], "val", sizes[crit[-1][0]] + 3]
+            return self.push({"op": "selectn", "a": k, "how": how, "crit": crit, "drop": rng.random() < 0.5,
+                              "via": rng.choice(["dict", "kwargs", "mixed"]), "alias": rng.random() < 0.5})
+        if kind in ("arithx", "joinx"):
+            # the other operand has DIFFERENT dimensions: a reduction of k (x - x.mean(d)), a source over some of k's
+            # dimensions and/or one of its own
+            r = rng.random()
+            big = [x for x in names if sizes[x] >= 2]
+            if r < 0.45 and big:
+                d = rng.choice(big)
+                nm = rng.choice(["mean", "sum", "max"])
+                j = self.push({"op": "named", "a": k, "name": nm, "dim": d, "bs": rng.choice([0, 0, 2]), "keep": rng.random() < 0.25, "kw": []})
+            else:
+                if self.internal_ndim(k) != len(self.prog["internal"]):
+                    return self.op_map_fallback(k)
+                j = self.sub_source(dims)
+            if isinstance(self.env[j], tuple):
+                return j
+            x, y = (k, j) if rng.random() < 0.6 else (j, k)
+            if kind == "arithx":
+                return self.push({"op": "arith", "a": x, "fn": rng.choice(["add", "subtract", "multiply", "divide"]), "b": y})
+            dim = self.name("j") if rng.random() < 0.6 else [self.name("j"), self.labels_for(2, "str")]
+            return self.push({"op": "join", "a": x, "b": y, "dim": dim, "match": rng.random() < 0.4})
+        if kind == "unindexed":
+            # dimensions WITHOUT coordinate (what join on a new name leaves behind), then the operations that treat them
+            # specially: batched reductions with a singleton remainder, stack/concatenate of a single element, keep_dim
+            j = self.partner(k, relabel=False, permute=False)
+            if j is None:
+                return self.op_map_fallback(k)
+            z = self.name("z")
+            cur = self.push({"op": "join", "a": k, "b": j, "dim": z, "match": False})
+            if isinstance(self.env[cur], tuple):
+                return cur
+            r = rng.random()
+            if r < 0.45:
+                # grow the dimension to 3..5 so that batch sizes leave a remainder of one
+                for _ in range(rng.randint(1, 3)):
+                    p2 = self.partner(k, relabel=False, permute=False)
+                    if p2 is None:
+                        break
+                    one = self.push({"op": "join", "a": p2, "b": p2, "dim": z, "match": False})
+                    if isinstance(self.env[one], tuple):
+                        break
+                    one = self.push({"op": "iselect", "a": one, "dim": z, "vals": [0], "drop": False})
+                    nxt = self.push({"op": "join", "a": cur, "b": one, "dim": z, "match": False})
+                    if isinstance(self.env[nxt], tuple):
+                        break
+                    cur = nxt
+                n = self.env[cur].nodes.sizes[z]
+                rem1 = [b for b in range(2, n) if n % b == 1] or [2]
+                nm = rng.choice(["sum", "max", "mean", "prod"])
+                return self.push({"op": "named", "a": cur, "name": nm, "dim": z, "bs": rng.choice(rem1), "keep": rng.random() < 0.3, "kw": []})
+            if r < 0.8:
+                one = self.push({"op": "iselect", "a": cur, "dim": z, "vals": [rng.randrange(2)], "drop": rng.random() < 0.5})
+                if isinstance(self.env[one], tuple):
+                    return one
+                op = rng.choice(["stack", "concatenate"])
+                return self.push({"op": op, "a": one, "dim": z, "bs": 0, "keep": rng.random() < 0.3, "axis": 0})
+            return self.push({"op": "named", "a": cur, "name": rng.choice(["sum", "mean"]), "dim": z, "bs": 0, "keep": True, "kw": []})
+        return self.op_map_fallback(k)
+
     def op_map_fallback(self, k):
         return self.push({"op": "map", "a": k, "fn": "neg"})
 
@@ -1177,5 +1672,5 @@ def tuple_(x):
     return (x[0], tuple(x[1]))
 
 
-def gen_program(rng, max_ops=4, max_pos=36):
-    return Gen(rng, max_ops=max_ops, max_pos=max_pos).generate()
+def gen_program(rng, max_ops=4, max_pos=36, ext=False):
+    return Gen(rng, max_ops=max_ops, max_pos=max_pos, ext=ext).generate()
